@@ -81,7 +81,9 @@ def _tag(p):
 
 CPU = torch.device("cpu")  # distinguishable (by identity) from the default argument "cpu"
 PRM = Points.empty()  # distinguishable (by identity) from the default argument
-CALL_ARGS = [dict(), dict(device=CPU), dict(params=PRM, device="cpu"), dict(params=PRM), dict(device="cpu")]
+CPU0 = torch.device("cpu", 0)  # another legal spelling of the same device
+CALL_ARGS = [dict(), dict(device=CPU), dict(params=PRM, device="cpu"), dict(params=PRM), dict(device="cpu"),
+             dict(device="cpu:0"), dict(device=CPU0), dict(params=PRM, device="cpu:0")]
 
 
 def _forwarded(tags, inner):
